@@ -361,6 +361,13 @@ func (c *Config) validateCircuitBreaker() error {
 		if c.CircuitBreaker.IntervalSeconds <= 0 {
 			return fmt.Errorf("circuit breaker interval must be positive (got %d)", c.CircuitBreaker.IntervalSeconds)
 		}
+		// Half-open admits at most max_requests trials and closes only after
+		// success_threshold of them succeed: with fewer trials than required
+		// successes the breaker could never close again. (0 = default, see
+		// loadbalancer.setupCircuitBreaker.)
+		if c.CircuitBreaker.MaxRequests > 0 && c.CircuitBreaker.SuccessThreshold > c.CircuitBreaker.MaxRequests {
+			return fmt.Errorf("circuit breaker success threshold (%d) must not exceed max requests (%d)", c.CircuitBreaker.SuccessThreshold, c.CircuitBreaker.MaxRequests)
+		}
 	}
 	return nil
 }
